@@ -67,6 +67,20 @@ Theorem C05_expire_then_read :
     end.
 Proof. exact C05_expire_then_read_proof. Qed.
 
+(* ... from ANY state: whatever the instance had cached and whether or not it was flagged expired already
+   (before fix e94d801 expire() returned early on the flag and kept a value a lazy assignment had cached since). *)
+Theorem C05_expire_always_refreshes :
+  forall (cfg : config) (s : st) (h o c : nat) (r1 : res outv) (s1 : st) (r2 : res outv) (s2 : st),
+    nth h (slots s) None = Some o -> (o < length (heap s))%nat ->
+    cache_values (i_k (get_inst s o)) = true ->
+    step cfg s (OExpire h) = (r1, s1) -> step cfg s1 (ORead h c) = (r2, s2) ->
+    r1 = Ret RNone /\
+    match assoc (i_id (get_inst s o)) (t_rows (tbl s (i_k (get_inst s o)))) with
+    | Some row => r2 = Ret (RVal (nth c row VNull))
+    | None => r2 = Raise ENotFound
+    end.
+Proof. exact C05_expire_always_refreshes_proof. Qed.
+
 (* ------------------------------------------------------------------ what is FALSE of the code (open findings) *)
 Definition cfgT : config := {| doCache := true; cullFreq := 100; cullFrac := 2 |}.
 
@@ -96,3 +110,4 @@ Print Assumptions C05_coherent.
 Print Assumptions C05_read.
 Print Assumptions C05_sync_refreshes.
 Print Assumptions C05_expire_then_read.
+Print Assumptions C05_expire_always_refreshes.
